@@ -62,26 +62,27 @@ Definition unstarted_settled (s : mstate) : bool :=
      8  = 6 when the user had cancelled Run's context before Close signalled
     11  a message was settled after a Close call had returned nil
     12  a Close returned nil although a handler was in progress when Run returned (or started after)
-    14  = 2 for a Close call after an earlier one had returned an error (timeout) *)
+    14  = 1, 2 or 11 when an earlier Close call had returned an error (timeout): a later call returned nil
+        while handlers still run *)
 Definition mon_step (nh : nat) (haspub : hid -> bool) (s : mstate) (e : aev) : mstate * list nat :=
   match e with
   | ATaken m => (MS (m :: m_taken s) (m_started s) (m_ended s) (m_settled s) (m_subclosed s) (m_pubclosed s)
                     (m_nil s) (m_err s) (m_anyret s) (m_signalled s) (m_early s) (m_runret s) (m_rundirty s) (m_susp s), [])
   | AStart m => (MS (m_taken s) (m :: m_started s) (m_ended s) (m_settled s) (m_subclosed s) (m_pubclosed s)
                     (m_nil s) (m_err s) (m_anyret s) (m_signalled s) (m_early s) (m_runret s) (m_rundirty s || m_runret s) (m_susp s),
-                 if m_nil s then [1] else [])
+                 if m_nil s then (if m_err s then [14] else [1]) else [])
   | AEnd m => (MS (m_taken s) (m_started s) (m :: m_ended s) (m_settled s) (m_subclosed s) (m_pubclosed s)
                   (m_nil s) (m_err s) (m_anyret s) (m_signalled s) (m_early s) (m_runret s) (m_rundirty s) (m_susp s), [])
   | ASettle m => (MS (m_taken s) (m_started s) (m_ended s) (m :: m_settled s) (m_subclosed s) (m_pubclosed s)
                      (m_nil s) (m_err s) (m_anyret s) (m_signalled s) (m_early s) (m_runret s) (m_rundirty s) (m_susp s),
-                  if m_nil s then [11] else [])
+                  if m_nil s then (if m_err s then [14] else [11]) else [])
   | ACloseCall c => (s, [])
   | ACloseRet c RNil =>
       (MS (m_taken s) (m_started s) (m_ended s) (m_settled s) (m_subclosed s) (m_pubclosed s)
           true (m_err s) true (m_signalled s) (m_early s) (m_runret s) (m_rundirty s) (m_susp s),
        (if any_busy s then (if m_err s then [14] else [2]) else []) ++
        (if unstarted_settled s then [3] else []) ++
-       (if m_rundirty s then [12] else []))
+       (if m_rundirty s && negb (m_err s) then [12] else []))
   | ACloseRet c RErr =>
       (MS (m_taken s) (m_started s) (m_ended s) (m_settled s) (m_subclosed s) (m_pubclosed s)
           (m_nil s) true true (m_signalled s) (m_early s) (m_runret s) (m_rundirty s)
